@@ -233,6 +233,16 @@ pub fn gen_exchange(t: &mut Tape, allow_close: bool) -> ExchangeSpec {
     for i in 0..t.weighted(&[3, 2, 1]) {
         extra_headers.push((format!("x-h{}", i), "v".repeat(t.range(0, 30))));
     }
+    if t.chance(12) {
+        // the same (suppressed-on-redirect) name on several lines, with other headers in between
+        extra_headers.push(("Cookie".to_string(), "second=line".to_string()));
+        if t.bool() {
+            extra_headers.push(("cookie".to_string(), "third=line".to_string()));
+        }
+        if t.bool() {
+            extra_headers.push(("Authorization".to_string(), "Bearer second".to_string()));
+        }
+    }
     ExchangeSpec {
         method,
         req_v10,
